@@ -490,14 +490,17 @@ def deliverAM (cfg : Cfg) (n : Node) (b : Bundle) (cons : List Constraint) :
 
 def purge (cons : List Constraint) : List Constraint := cons.filter (· = .localEndpoint)
 
+/-- `bp.AddConstraint(LocalEndpoint)` (the constraints are a set). -/
+def addLocal (cons : List Constraint) : List Constraint :=
+  if cons.contains .localEndpoint then cons else cons ++ [.localEndpoint]
+
 /-- `Core.localDelivery`; the last component is the constraint set it leaves in the store
 (`[]` = the bundle is removed from the store). -/
 def localDelivery (cfg : NCfg) (n : Node) (b : Bundle) (cons : List Constraint) :
     Node × List Out × List Constraint :=
   if b.admin && !b.adminOk then (n, [.deletion b], purge cons)
   else
-    let cons1 := if cons.contains .localEndpoint then cons else cons ++ [.localEndpoint]
-    let r := deliverAM cfg.toCfg n b cons1
+    let r := deliverAM cfg.toCfg n b (addLocal cons)
     if cfg.reportGuard && !r.1 then (r.2.1, r.2.2.1, r.2.2.2)
     else
       let rep := if b.reqDelivery then statusReport cfg.toCfg r.2.1 b else []
